@@ -31,6 +31,13 @@ Theorem C08_encoder : forall ps, Forall wf_fields ps ->
 Proof. exact C08_encoder_roundtrip. Qed.
 Print Assumptions C08_encoder.
 
+(* the writer the tie executes tests blank lines with Go's Unicode whitespace (R2u); on values without the UTF-8
+   encoding of a non-ASCII Unicode space it folds exactly as the writer of the theorems above *)
+Require R2u.
+Theorem C08_exact_writer_agrees : forall v, Forall R2u.uclean (split nl (trim_suffix [nl] v)) -> R2u.fold_lines_u v = fold_lines v.
+Proof. exact R2u.fold_lines_u_clean. Qed.
+Print Assumptions C08_exact_writer_agrees.
+
 (* the excluded class (KNOWN-FINDING empty-first-line): a value whose first logical line is empty and whose
    second is empty too is not reproduced *)
 Example C08_empty_first_line_refuted :
